@@ -328,7 +328,7 @@ func init() {
 // sizes every, 2*every, .. and at the bound, on the way up and on the way down (the capacity differs).
 // Exhaustive over the nested enumeration at the stated states only.
 //
-//	check = pure | race (C18) | snap (C16) | iter | rewound (C08) | roundtrip (C11)
+//	check = pure | race (C18) | snap (C16) | iter | rewound (C08) | roundtrip (C11) | enum (C14) | state
 func largeStatesJob(j Job, r *JobResult) {
 	s := makeSys(j.s("c", ""), j)
 	n, every := j.p("n", 200), j.p("every", 64)
@@ -370,6 +370,18 @@ func largeStatesJob(j Job, r *JobResult) {
 			return roundTripCheck(build, func(key, via string) {}, &r.St)
 		case "state":
 			return build().CheckState()
+		case "enum":
+			en, ok := build().(enumerable)
+			if !ok {
+				return nil
+			}
+			ad := en.enumAdapter()
+			if ad == nil {
+				return nil
+			}
+			r.St.Nested["enum_states"]++
+			ad.followCap = 8
+			return enumCheck(ad, 4, 100000, &r.St)
 		}
 		return purityPass(build, &r.St)
 	}
